@@ -16,6 +16,7 @@ type Spec struct {
 var runners = map[string]eng.Runner{
 	"C04": wire.C04,
 	"C05": wire.C05,
+	"C06": wire.C06,
 	"C07": wire.C07,
 	"C16": wire.C16Read,
 }
